@@ -447,7 +447,11 @@ def structural_guarantees(ctx, chk, E, down_eval):
                     continue
                 found = True
                 conds = " ".join(c[0] for c in path.conds)
-                if guard not in conds:
+                from asm import key_presence
+                mapname = guard.split(".")[1]
+                # the key is known to be present on this path, however the test is written (contains_key, get matched
+                # against Some, is_some, the entry API ..)
+                if guard not in conds and not any(key_presence(c, mapname) is True or key_presence(c, "context." + mapname) is True for c in path.conds):
                     okc = False
         if found and okc:
             chk.ok("C10.R5", f"{nt}-guard", f"every successful path passes a test on {guard}")
